@@ -750,7 +750,7 @@ func isNonFiniteAt(v any, path string) bool {
 		for _, p := range strings.Split(path, "/") {
 			switch x := v.(type) {
 			case map[string]any:
-				v = x[p]
+				v = x[strings.NewReplacer("~1", "/", "~0", "~").Replace(p)] // RFC 6901 reference token
 			case []any:
 				i, err := strconv.Atoi(p)
 				if err != nil || i < 0 || i >= len(x) {
